@@ -169,6 +169,13 @@ theorem services_before_routes (c : TCtx) (n : Net) (m : Mem) :
 
 /-! ### Finalising order -/
 
+/-- an expectation whose period has elapsed behaves exactly like no expectation (so the harness may report
+    both alike, and the background cleaner that drops elapsed entries changes nothing observable) -/
+theorem runGrace_elapsed_none (g : Nat) (md : Bool) : runGrace g .elapsed md = runGrace g .none md := by
+  unfold runGrace; split
+  · rfl
+  · split <;> rfl
+
 theorem runGrace_cases (g : Nat) (e : Exp) (md : Bool) :
     (runGrace g e md).2 = false ∨ (runGrace g e md).2 = true := by
   cases (runGrace g e md).2 <;> simp
